@@ -800,6 +800,14 @@ impl Monitor for FollowUps {
                 }
             }
         }
+        // class removed / key retired => the revocation was sent and the
+        // parent no longer publishes a certificate for a key nobody holds
+        if let Some(obs) = oracle::observe(w) {
+            r.count("dropped_key_checks", 1);
+            for (s, d) in oracle::dropped_key_issues(w, &obs) {
+                issues.push((format!("{s}@{}", op.kind()), d));
+            }
+        }
         // key activated => revocation of the old key requested and done
         if let (Op::RollActivate { ca }, Outcome::Ok) = (op, outcome) {
             let roles = oracle::key_roles(w, ca);
@@ -848,8 +856,12 @@ fn history(r: &mut Report, args: &Args, idx: u64, seed: u64,
     let n_random = if args.thorough() { rng.range(25, 50) }
         else { rng.range(10, 16) } as usize;
     let cfg = WorldCfg::new(args.work.join(format!("h{idx}")));
-    let script = hist::standard_forest(false);
+    let mut script = hist::standard_forest(false);
     let n_setup = script.len();
+    if idx % 3 == 0 && replay.is_none() {
+        // three classes under one parent, two of them removed at once
+        script.extend(oracle::three_classes_script());
+    }
     let mut m = FollowUps;
     let (replay, replay_steps) = match replay {
         Some((o, s)) => (Some(o), s), None => (None, None)
